@@ -9,6 +9,7 @@ package main
 // store, and both requests must have been answered.
 
 import (
+	"os"
 	"fmt"
 	"github.com/tinode/chat/server/auth"
 	"strings"
@@ -202,7 +203,7 @@ func vfAtLoadRun(r *vfev.Report, nbp *int, shard, shards int, target string, nop
 					opCode, _ = c.Req(req)
 				} else {
 					vsched.Quiesce()
-					for _, f := range c.Take() {
+					for _, f := range c.frames { // all frames: the reply may have been consumed together with the first request's
 						if f.Msg.Ctrl != nil && f.Msg.Ctrl.Id == opID {
 							opCode = f.Msg.Ctrl.Code
 						} else if f.Msg.Meta != nil && f.Msg.Meta.Id == opID && opCode == 0 {
@@ -373,7 +374,7 @@ func vfAtEnd(prop, part string) {
 							opCode, _ = c.Req(req)
 						} else {
 							vsched.Quiesce()
-							for _, f := range c.Take() {
+							for _, f := range c.frames { // all frames: the reply may have been consumed together with the first request's
 								if f.Msg.Ctrl != nil && f.Msg.Ctrl.Id == opID {
 									opCode = f.Msg.Ctrl.Code
 								} else if f.Msg.Meta != nil && f.Msg.Meta.Id == opID && opCode == 0 {
@@ -394,6 +395,18 @@ func vfAtEnd(prop, part string) {
 						vsched.Quiesce()
 						if opCode == 0 && c.ended {
 							opCode = -1 // the server ended the connection of the deleted user: nothing more is owed
+						}
+						if os.Getenv("VERIF_DEBUG") != "" && opCode == 0 {
+							fmt.Printf("  debug: %s/%s k=%d sel=%v where=%s opID=%s\n", what, op, k, sel, where, opID)
+							for _, f := range c.frames[max(0, len(c.frames)-6):] {
+								fmt.Println("  debug:    frame", vfTrunc(vfFrameString(f), 200))
+							}
+							for _, g := range vsched.Goroutines() {
+								fmt.Println("  debug:    ", g)
+							}
+							if c.sess != nil {
+								fmt.Printf("  debug:    session lists grp=%v slots=%d\n", c.sess.getSub(t.grp) != nil, len(c.sess.inflightReqs.sem))
+							}
 						}
 						s := t.snap()
 						exists = s.alive()
